@@ -21,6 +21,7 @@ import (
 	"io"
 	"net/http"
 	"sync"
+	"sync/atomic"
 )
 
 // duplexHTTPCall is a full-duplex stream between the client and server. The
@@ -47,6 +48,10 @@ type duplexHTTPCall struct {
 
 	errMu sync.Mutex
 	err   error
+
+	// requestBodyDone is non-zero once CloseWrite has ended the request body.
+	// Accessed atomically.
+	requestBodyDone uint32
 }
 
 func newDuplexHTTPCall(
@@ -129,6 +134,7 @@ func (d *duplexHTTPCall) CloseWrite() error {
 	// code for unary, client streaming, and server streaming RPCs must call
 	// CloseWrite automatically rather than requiring the user to do it.
 	verifYield(d.ctx, "closewrite.pipe")
+	atomic.StoreUint32(&d.requestBodyDone, 1)
 	return d.requestBodyWriter.Close()
 }
 
@@ -230,8 +236,15 @@ func (d *duplexHTTPCall) SetError(err error) {
 	//
 	// It's safe to ignore the returned error here. Under the hood, Close calls
 	// CloseWithError, which is documented to always return nil.
+	//
+	// If CloseWrite already ended the request body there's nothing left to
+	// stop, and net/http may not have read that end yet: closing the read side
+	// now would turn it into io.ErrClosedPipe, which HTTP/2 treats as a failed
+	// request and reports on a response that isn't completely read.
 	verifYield(d.ctx, "seterror.pipe")
-	_ = d.requestBodyReader.Close()
+	if atomic.LoadUint32(&d.requestBodyDone) == 0 {
+		_ = d.requestBodyReader.Close()
+	}
 }
 
 // SetValidateResponse sets the response validation function. The function runs
